@@ -25,9 +25,12 @@ def gen_plan(rng, tier, config, opts):
         cv = curve if curve != 'BN_P256' else 'NIST_P256'
         lines.append('# fresh-process')
         for t in range(k):
-            steps = ['RESEED ' + rng.bytes(8).hex(), 'EPSET ' + cv, first, first, 'W_STR %d' % rng.below(1000), 'CLRERR', 'PROBE 1']
+            steps = ['RESEED ' + rng.bytes(8).hex(), 'EPSET ' + cv, 'BARRIER', first, first, 'W_STR %d' % rng.below(1000), 'CLRERR', 'PROBE 1']
             lines += ['THREAD %d %s' % (t, s) for s in steps]
-        lines.append('SEG 0 %d' % rng.choice([1, 5, 20, 60, 150, 300, 600, rng.randint(1, 1000)]))
+        # initialisation and selection cost millions of blocks: the threads run up to the barrier one after the other, the
+        # lag and the fine slices apply from there
+        lines.append('SEG 0 999999999')
+        lines.append('SEG 0 %d' % rng.choice([1, 5, 20, 60, 150, 200, 300, 600, rng.randint(1, 1000)]))
         lines.append('RR %d %d %d' % (rng.choice([100000, 250000]), rng.choice([1, 1, 2, 3, 6]), rng.below(1 << 30)))
         return '\n'.join(lines) + '\n'
     lockstep = rng.chance(0.15)
@@ -41,8 +44,9 @@ def gen_plan(rng, tier, config, opts):
         if rng.chance(0.3):
             items.insert(0, 'W_STR %d' % rng.below(1000))      # text conversion first: tables built on first use
         for t in range(k):
-            steps = ['RESEED ' + rng.bytes(8).hex(), 'EPSET ' + (curve if curve != 'BN_P256' else 'NIST_P256')] + items + ['CLRERR', 'PROBE 1']
+            steps = ['RESEED ' + rng.bytes(8).hex(), 'EPSET ' + (curve if curve != 'BN_P256' else 'NIST_P256'), 'BARRIER'] + items + ['CLRERR', 'PROBE 1']
             lines += ['THREAD %d %s' % (t, s) for s in steps]
+        lines.append('SEG 0 999999999')      # up to the barrier one after the other (initialisation costs millions of blocks)
         lines.append('SEG 0 %d' % rng.randint(1, 2000))
         lines.append('RR %d %d %d' % (rng.choice([100000, 250000, 500000]), rng.choice([1, 2, 3, 6]), rng.below(1 << 30)))
         return '\n'.join(lines) + '\n'
